@@ -232,7 +232,14 @@ def readFromStream(substrate, size=-1, context=None):
     """
     while True:
         # this will block unless stream is non-blocking
-        received = substrate.read(size)
+        try:
+            received = substrate.read(size)
+
+        except OverflowError:
+            # e.g. a length field claiming more octets than can be addressed
+            raise error.PyAsn1Error(
+                'Read size %s is beyond what a stream can hold' % (size,))
+
         if received is None:  # non-blocking stream can do this
             yield error.SubstrateUnderrunError(context=context)
 
